@@ -258,9 +258,18 @@ Definition gen_walk (p : profile) (E : env) (init : bytes) (adds : list bytes) (
   end.
 End GenWalk.
 
-(* SymbolFile::walk_frame, STACK CFI part, over the generated evaluator *)
+(* SymbolFile::walk_frame, STACK CFI part, over the generated evaluator and the generated record selection *)
+Definition gen_take_cmp (a addr : Z) : bool :=
+  match cfi_take_cmp with CmpLe => a <=? addr | CmpLt => a <? addr end.
+Fixpoint gen_take_applicable (addr : Z) (l : list cfi_rules) : list cfi_rules :=
+  match l with
+  | [] => []
+  | x :: t => if gen_take_cmp (fst x) addr then x :: gen_take_applicable addr t else []
+  end.
+Definition gen_deltas (l : list cfi_rules) : list cfi_rules := if cfi_deltas_sorted then sort_cfi l else l.
+
 Definition gen_walk_frame_cfi {S} (ops : wops S) (p : profile) (E : env) (r : cfi_record) (addr : Z) (s : S)
   : outcome (option S) :=
   if cfi_covers r addr then
-    gen_walk ops p E (snd (c_init r)) (map snd (take_applicable addr (sort_cfi (c_add r)))) s
+    gen_walk ops p E (snd (c_init r)) (map snd (gen_take_applicable addr (gen_deltas (c_add r)))) s
   else Ret None.
